@@ -15,8 +15,8 @@ import vlib
 from vlib import Fatal, log
 
 VIEW_NAMES = [("can", "canLogin"), ("list", "listed"), ("files", "files"), ("files2", "filesAfterReload"),
-              ("reload", "reloaded"), ("got", "shown")]
-STEP_KEYS = ("op", "login", "name", "pw", "acc", "subs", "old", "k")
+              ("reload", "reloaded"), ("got", "shown"), ("round", "round")]
+STEP_KEYS = ("op", "login", "name", "pw", "acc", "subs", "old", "k", "admins", "logins")
 
 
 def _long_pw(rec):
@@ -101,6 +101,10 @@ def _execute(ctx, scripts, tag, big):
     for line in open(lp):
         ev = json.loads(line)
         o = ev.get("op")
+        if o == "storm":
+            for q in ev.get("reqs", []):
+                k = "storm:%s/%s" % (q.get("kind"), q.get("reply"))
+                ops[k] = ops.get(k, 0) + 1
         if o == "update":
             o = "update[%s]" % ",".join(sorted(set(u["k"] for u in ev["subs"])))
         if o == "world" and ev.get("big"):
@@ -154,6 +158,12 @@ def run(ctx, prop):
                 first = scripts
             # 3./4. real server -> trace validation
             _execute(ctx, scripts, "b%d" % b, 3)
+        # 5. concurrent rounds: K administrators fire set-user / update-user / new-user / delete-user at the same 3
+        #    logins at the same moment; judged only on interleaving-independent facts (Accounts!RoundFacts)
+        worlds, rounds = (32, 10) if quick else (160, 16)
+        storm = [{"steps": [{"op": "storm", "admins": 6, "logins": 3}] * rounds} for _ in range(worlds)]
+        _execute(ctx, storm, "storm", 0)
+        ctx.notes["concurrent_rounds"] = worlds * rounds
         for f in mcs:
             f.result()
         r = wit.result()
@@ -168,6 +178,7 @@ def run(ctx, prop):
         "logins and names are byte strings that are legal file names (no '/', no NUL, not '.' or '..', login + '.yaml' <= 255 bytes); path escapes belong to C07",
         "passwords are compared as bcrypt compares them: the NUL-terminated wire form repeated cyclically to 72 bytes, so the empty password and the marker string (clear 0xFF = wire 0x00) are the same password",
         "the login matrix after every step covers the script's logins (<= 4) x passwords (<= 5) plus the administrator; the stored hashes are additionally verified against every password of the script with an independent bcrypt",
+        "concurrent rounds (6 administrators, one request each, start barrier, views at quiescence) are judged only on what holds under every interleaving: the four views show one and the same map, every account is as before the round or as one request of the round wrote it, a login named only by deletes is gone, an unnamed login is untouched; whether the race window of a defect is hit is a matter of scheduling",
         "after the first step of a run at which a view differs, the rest of that run is not judged (model and server are in different states); a second script family without rename sub-operations keeps the other operations unmasked while F17 is open",
     ]
 
